@@ -13,7 +13,6 @@ use std::cmp::Ordering;
 
 pub const AMBIGUOUS: &[&str] = &[
     "error kind when the parent of a new object is a stream: NotFound or InvalidInput (success is not acceptable)",
-    "error kind when both the parent is missing and the name is invalid: NotFound or InvalidInput",
     "remove_storage_all / walk_storage on a stream path: either InvalidInput, or the stream treated as a one-node subtree",
     "state bits of a stream after create_stream overwrote it: kept or reset (observed value is adopted)",
     "entry().path() spelling when the lookup used another letter case: compared case-insensitively",
@@ -983,10 +982,16 @@ impl Model {
         match self.lookup(parent) {
             None => {
                 // is some prefix a stream?  then the parent "does not exist" either way
-                if valid {
+                // (C09: an invalid name "is rejected with InvalidInput" - the statement makes no
+                // exception for a missing parent; a valid name under a plainly missing parent is
+                // NotFound, and only a stream in the way leaves the kind open)
+                let stream_in_the_way = (1..parent.len()).any(|i| self.lookup(&parent[..i]).map(|n| n.is_stream).unwrap_or(false));
+                if !valid {
+                    CreateOutcome::Refuse(vec![ErrKind::InvalidInput])
+                } else if stream_in_the_way {
                     CreateOutcome::Refuse(vec![ErrKind::NotFound, ErrKind::InvalidInput])
                 } else {
-                    CreateOutcome::Refuse(vec![ErrKind::NotFound, ErrKind::InvalidInput])
+                    CreateOutcome::Refuse(vec![ErrKind::NotFound])
                 }
             }
             Some(pn) if pn.is_stream => CreateOutcome::Refuse(vec![ErrKind::NotFound, ErrKind::InvalidInput]),
